@@ -19,10 +19,12 @@ G_ALL = ["G_C01_Exact", "G_C02_Carried", "G_C01_OnlyAdded", "G_C03_Notes", "G_C0
 
 EDIT_COMMIT = ("edit", "ckpt", "commit_all")
 
-PARTIAL = ("edit", "ckpt", "add", "add_hunk", "commit_all", "commit_staged", "commit_paths")
+PARTIAL = ("edit", "ckpt", "add", "add_hunk", "add_lines", "commit_all", "commit_staged", "commit_paths")
 DESTRUCTIVE = ("edit", "ckpt", "commit_all", "reset_hard", "reset_keep", "checkout_paths", "restore", "stash")
 CARRY = ("edit", "ckpt", "commit_all", "reset_keep", "stash")
 DECORATED = ("edit", "ckpt", "commit_all", "readonly", "ckpt_repeat")
+AMEND = ("edit_ins", "edit_del", "ckpt", "commit_all", "amend")
+REWRITE = ("edit_ins", "ckpt", "commit_all", "branch", "switch", "rebase", "cherry", "squash")
 MIXED = ("edit", "ckpt", "add", "commit_all", "commit_staged", "reset_keep", "stash", "checkout_paths")
 
 PLANS = {
@@ -47,16 +49,32 @@ PLANS = {
         ],
     },
     "C02": {
-        "clauses": ["C02_Carried", "C03_Notes", "C03_Blame"],
+        "clauses": ["C02_Carried", "C03_Notes", "C03_Blame", "C01_OnlyAdded"],
         "quick": [
             dict(name="carry", consts=consts(alphabet=CARRY, steps=6, commits=3, lines=3), invariants=G_ALL,
-                 budget=300, variants=RENDERS[:4]),
+                 budget=200, variants=RENDERS[:4]),
+            dict(name="amend", consts=consts(alphabet=AMEND, steps=6, commits=4, lines=4, sessions=("S1",)),
+                 invariants=G_ALL, budget=160, variants=RENDERS[:4]),
+            dict(name="rewrite", consts=consts(alphabet=REWRITE, steps=10, commits=7, uid=5, lines=5,
+                                               sessions=("S1",)), invariants=G_ALL, budget=260,
+                 variants=RENDERS[:4], per_tag=1),
         ],
         "thorough": [
             dict(name="carry", consts=consts(alphabet=CARRY, steps=7, commits=3, lines=3), invariants=G_ALL,
-                 budget=2500, variants=RENDERS, per_tag=3, timeout=2400),
+                 budget=2000, variants=RENDERS, per_tag=3, timeout=2400),
             dict(name="carry2f", consts=consts(files=("f", "g"), alphabet=CARRY, steps=6, commits=3, lines=3),
+                 invariants=G_ALL, budget=1000, variants=RENDERS, timeout=2400),
+            dict(name="amend", consts=consts(alphabet=AMEND + ("edit_mod", "edit_ind"), steps=7, commits=4, lines=4),
                  invariants=G_ALL, budget=1500, variants=RENDERS, timeout=2400),
+            dict(name="rewrite", consts=consts(alphabet=REWRITE + ("edit_del",), steps=10, commits=7, uid=6, lines=5,
+                                               sessions=("S1",)), invariants=G_ALL, budget=2500, variants=RENDERS,
+                 per_tag=2, timeout=3000, workers=12),
+            dict(name="rewrite2f", consts=consts(files=("f", "g"), alphabet=REWRITE, steps=10, commits=7, uid=5,
+                                                 lines=4), invariants=G_ALL, budget=1500, variants=RENDERS,
+                 per_tag=2, timeout=3000, workers=12),
+            dict(name="mixed", consts=consts(alphabet=REWRITE + ("amend", "reset_keep", "stash"), steps=9, commits=7,
+                                             uid=5, lines=4, sessions=("S1",)), invariants=G_ALL, budget=1500,
+                 variants=RENDERS, per_tag=1, timeout=3000, workers=12),
         ],
     },
     "C03": {
